@@ -841,3 +841,51 @@ func PrlSweep(r *lib.Run, mode int, maxLen int) {
 		}
 	}
 }
+
+// CfgGrid: the value domain of dhcp4_spoofer.Config (and the NIC data New reads): every DNS form (zero value,
+// plain, 0.0.0.0, IPv4-mapped, IPv6, equal to host / router, outside the LAN), modes incl. invalid ones,
+// netfilter prefixes that New rejects (outside the home LAN, wider than it, /32) or accepts (/31, = home),
+// a router outside the home LAN — each as a plain history (a non-captured and a captured client DISCOVER and
+// SELECT) and as a RESTART on the same file with the SAME configuration (the renewal must find the binding).
+func CfgGrid(r *lib.Run) {
+	base := StdCfg(0, 2)
+	m1, m2 := net.HardwareAddr{2, 0, 0, 0, 0, 1}, net.HardwareAddr{2, 0, 0, 0, 0, 2}
+	var cfgs []Cfg
+	for _, d := range []struct {
+		form string
+		v    uint32
+	}{{"z", 0}, {"", 0x08080404}, {"", 0}, {"m", 0x08080404}, {"m", 0}, {"v6", 0}, {"", base.HostIP}, {"", base.RouterIP}, {"m", base.RouterIP}, {"", 0xffffffff}} {
+		c := base
+		c.DNS, c.DNSForm = d.v, d.form
+		cfgs = append(cfgs, c)
+	}
+	for _, md := range []int{0, 1, 3, 4, 99} {
+		c := base
+		c.Mode = md
+		cfgs = append(cfgs, c)
+	}
+	for _, nf := range []struct {
+		ip   uint32
+		bits int
+	}{{base.HostIP, 27}, {base.HostIP, 28}, {base.HostIP, 30}, {base.HostIP, 31}, {base.HostIP, 32}, {0xc0a80109, 29}} {
+		c := base
+		c.NfIP, c.NfBits = nf.ip, nf.bits
+		cfgs = append(cfgs, c)
+	}
+	c := base
+	c.RouterIP = 0xc0a80101 // router outside the home LAN
+	cfgs = append(cfgs, c)
+	a2 := uint32(0)
+	for _, c := range cfgs {
+		n1, _ := c.lan(false)
+		a2 = n1 + 2
+		d1 := Msg{Kind: 'D', Chaddr: m1, Xid: 0x11111111, Prl: []byte{1, 3, 6}}.Token()
+		s1 := Msg{Kind: 'R', Chaddr: m1, Xid: 0x11111111, Req: &a2, Sid: &c.HostIP, Prl: []byte{1, 3, 6}}.Token()
+		d2 := Msg{Kind: 'D', Chaddr: m2, Xid: 0x22222222, Prl: []byte{1, 3, 6}}.Token()
+		renew := Msg{Kind: 'R', Chaddr: m1, Xid: 0x11111111, Ciaddr: a2}.Token()
+		r.Do("hist", append(c.Tokens(), d1, s1, "C,"+hxmac(m2), d2)...)
+		args := append(append(c.Tokens(), c.Tokens()...), d1, s1, "|", renew, d2, "C,"+hxmac(m2), d2)
+		r.Do("restart", args...)
+		r.Stat("class.cfg-grid", 2)
+	}
+}
